@@ -2115,6 +2115,9 @@ def serialize_tensor_into(
     if isinstance(from_, TensorProtoTensor):
         # Directly copy from the tensor proto if it is available
         tensor_proto.CopyFrom(from_.raw)
+        # The IR tensor's metadata_props were read from the proto; re-emit them in place
+        # of the copied entries instead of appending a second copy.
+        del tensor_proto.metadata_props[:]
         if from_.metadata_props:
             _serialize_metadata_props_into(tensor_proto.metadata_props, from_.metadata_props)
         return
